@@ -66,7 +66,8 @@ fn gen(r: &mut StdRng, class: u16, ty: u16) -> Vec<u8> {
     let mut v: Vec<u8> = match (class, ty) {
         (_, 2) | (_, 3) | (_, 4) | (_, 5) | (_, 7) | (_, 8) | (_, 9) | (_, 12) => name(r),
         (1, 1) => vec![1, 2, 3, 4],
-        (3, 1) => { let mut v = name(r); v.extend_from_slice(&[0, r.gen_range(0..2)]); v }
+        // type A outside class IN: in CH a name and a 16-bit address, in any other class opaque octets that may look like that
+        (c, 1) if c != 1 => { let mut v = name(r); v.extend_from_slice(&[0, r.gen_range(0..2)]); v }
         (_, 6) => { let mut v = name(r); v.extend(name(r)); v.extend_from_slice(&[0; 19]); v.push(r.gen_range(0..2)); v }
         (1, 11) => { let mut v = vec![1, 2, 3, 4, 6]; for _ in 0..r.gen_range(0..3) { v.push(r.gen()); } v }
         (_, 13) => { let mut v = vec![2, b'a', b'b']; v.extend_from_slice(&[1, b'c']); if r.gen_bool(0.2) { v.extend_from_slice(&[0]); } v }
@@ -107,8 +108,8 @@ fn gen(r: &mut StdRng, class: u16, ty: u16) -> Vec<u8> {
     v
 }
 
-pub const COMBOS: [(u16, u16); 28] = [(1, 1), (3, 1), (1, 2), (1, 3), (1, 4), (1, 5), (1, 6), (1, 7), (1, 8), (1, 9), (1, 11), (1, 12), (1, 13), (1, 14), (1, 15), (1, 16),
-    (1, 28), (1, 33), (3, 33), (1, 41), (1, 250), (1, 10), (1, 65280), (4, 2), (3, 28), (3, 6), (4, 33), (65280, 33)];
+pub const COMBOS: [(u16, u16); 30] = [(1, 1), (3, 1), (1, 2), (1, 3), (1, 4), (1, 5), (1, 6), (1, 7), (1, 8), (1, 9), (1, 11), (1, 12), (1, 13), (1, 14), (1, 15), (1, 16),
+    (1, 28), (1, 33), (3, 33), (1, 41), (1, 250), (1, 10), (1, 65280), (4, 2), (3, 28), (3, 6), (4, 33), (65280, 33), (4, 1), (254, 1)];
 
 pub fn main(args: &[String]) {
     silence_panics();
@@ -172,14 +173,25 @@ pub fn main(args: &[String]) {
         // write the RDATA into a message (each compression mode) and read it back
         if valid {
             let mode = r.gen_range(0..3usize);
+            let fail_between = r.gen_bool(0.5);
             let a2 = a.clone();
             let res = catch_unwind(AssertUnwindSafe(|| {
-                let mut buf = vec![0u8; 2048];
+                let mut buf = vec![0xFFu8; 2048];
                 let mut w = Writer::new(&mut buf[..], 2048).unwrap();
                 w.set_compression_mode([CompressionMode::Standard, CompressionMode::CasePreserving, CompressionMode::Disabled][mode]);
                 // a first record whose owner / RDATA names can serve as compression targets
                 let o1 = nm("ns.www.a.");
                 w.add_answer_rr(HintedName::new(Hint::None, &o1), Type::from(2), Class::IN, Ttl::from(1), b"\x03WWW\x01a\x00".as_slice().try_into().unwrap(), None).unwrap();
+                // half of the time an add that fails in between (an NS RRset whose second record does not fit the limit
+                // set for it): it is rolled back, and nothing of it may influence how the next record is written
+                if fail_between {
+                    let st = w.verif_state();
+                    w.set_limit(st.0 + 30);
+                    let set = RdataSetOwned::from_iter(Class::IN, Type::from(2), [<&Rdata>::try_from(&b"\x01x\x03www\x01a\x00"[..]).unwrap(), <&Rdata>::try_from(&b"\x01y\x03www\x01a\x00"[..]).unwrap()]).unwrap();
+                    let o3 = nm("x.www.a.");
+                    let _ = w.add_answer_rrset(HintedName::new(Hint::None, &o3), Type::from(2), Class::IN, Ttl::from(3), &set, None);
+                    w.set_limit(2048);
+                }
                 let o2 = nm("www.a.");
                 let rda: &Rdata = a2.as_slice().try_into().unwrap();
                 let wres = w.add_answer_rr(HintedName::new(Hint::None, &o2), Type::from(ty), Class::from(class), Ttl::from(2), rda, None);
